@@ -6,7 +6,7 @@
    matrix_from_callback are the executable model (coq/Cli_Model.v). *)
 From Coq Require Import String Ascii List ZArith QArith Bool Arith Permutation.
 From TK Require Import Cli_Model Cli_Spec Cli_Argv_Model Cli_Argv_Spec Cli_Proof_Argv Cli_Proof_Decide Cli_Proof_Files Cli_Proof_Transpose
-  Cli_Proof_Pre Cli_Proof_Main Cli_Proof_Exit Cli_Proof_Round Cli_Proof_Perm Cli_Proof_IntIO Cli_Proof_Shape Cli_Proof_Gen Cli.
+  Cli_Proof_Pre Cli_Proof_Main Cli_Proof_Exit Cli_Proof_Round Cli_Proof_Perm Cli_Proof_IntIO Cli_Proof_Shape Cli_Proof_Gen Cli_IntParse_Model Cli_Proof_IntParse Cli.
 Import ListNotations.
 Local Close Scope Q_scope.
 Local Open Scope string_scope.
@@ -167,6 +167,47 @@ Theorem cli_argv_quirks :
   scan rd0 doc_options ["--k"; "5"] [] = None.
 Proof. exact (conj argv_td_group (conj argv_td_long argv_long_one_letter)). Qed.
 Print Assumptions cli_argv_quirks.
+
+(* ---- the integer options: cxxopts' integer_parser<int> modelled (Cli_IntParse_Model.v; compared with the real
+   parser on thousands of tokens on every run).  The theorems above hold for EVERY reading function rd, in
+   particular for rd = (int_parse, .) ---- *)
+Theorem cli_int_option_is_an_int : forall s z, int_parse s = Some z -> (-2147483648 <= z <= 2147483647)%Z.
+Proof. exact int_parse_in_range. Qed.
+Print Assumptions cli_int_option_is_an_int.
+
+Example cli_int_option_is_an_int_nonvacuous : int_parse "10" = Some 10%Z.
+Proof. vm_compute. reflexivity. Qed.
+
+(* a decimal numeral that fits is read as the number written *)
+Theorem cli_int_option_decimal : forall s, is_empty s = false -> all_digits s = true ->
+  (digits_val s 0 <= 2147483647)%Z -> int_parse s = Some (digits_val s 0%Z).
+Proof. exact int_parse_decimal. Qed.
+Print Assumptions cli_int_option_decimal.
+
+Example cli_int_option_decimal_nonvacuous :
+  is_empty "2147483647" = false /\ all_digits "2147483647" = true /\ (digits_val "2147483647" 0 <= 2147483647)%Z.
+Proof. split; [reflexivity|]. split; [reflexivity|]. vm_compute. discriminate. Qed.
+
+Theorem cli_int_option_negative_decimal : forall s, is_empty s = false -> all_digits s = true ->
+  (digits_val s 0 <= 2147483648)%Z -> int_parse (String "-" s) = Some (- digits_val s 0)%Z.
+Proof. exact int_parse_negative_decimal. Qed.
+Print Assumptions cli_int_option_negative_decimal.
+
+Example cli_int_option_negative_decimal_nonvacuous :
+  is_empty "7" = false /\ all_digits "7" = true /\ (digits_val "7" 0 <= 2147483648)%Z.
+Proof. split; [reflexivity|]. split; [reflexivity|]. vm_compute. discriminate. Qed.
+
+Theorem cli_int_option_rejects :
+  int_parse "" = None /\ int_parse "+5" = None /\ int_parse "1.5" = None /\ int_parse "12abc" = None /\
+  int_parse "0x" = None /\ int_parse "0x1g" = None /\ int_parse "2147483648" = None /\
+  int_parse "-2147483649" = None.
+Proof. exact int_parse_rejects. Qed.
+Print Assumptions cli_int_option_rejects.
+
+(* quirk of cxxopts 3.1.1 (third party, not tapkee): its overflow test misses this wrap-around of 2^32 *)
+Theorem cli_int_option_wrap_quirk : int_parse "4772185890" = Some 477218594%Z.
+Proof. exact int_parse_wrap_quirk. Qed.
+Print Assumptions cli_int_option_wrap_quirk.
 
 (* ---- files: rows <-> lines ---- *)
 Theorem cli_read_token_matrix : forall (V : Type) (parse : string -> option V) d (tm : list (list string)),
@@ -392,6 +433,30 @@ Theorem cli_unequal_rows_exit : forall (V : Type) (parse : string -> option V) (
   exists c, gen_main V parse print lib a content = Fail c /\ c <> 0%Z.
 Proof. exact gen_main_unequal_rows. Qed.
 Print Assumptions cli_unequal_rows_exit.
+
+(* "rows of unequal length make it exit non-zero", from the rows of the file itself, for every command line *)
+Theorem cli_ragged_rows_exit : forall (V : Type) (parse : string -> option V) (print : V -> string)
+         (lib : list (string * value) -> bool -> nat -> list (list V)
+                -> option (list (list V) * option (list (list V) * list V))) a content,
+  (forall d, exists r0 rows i r,
+      parse_rows V parse d (lines_fixed content) = r0 :: rows /\
+      nth_error (r0 :: rows) i = Some r /\ length r <> length r0) ->
+  exists c, gen_main V parse print lib a content = Fail c /\ c <> 0%Z.
+Proof. exact gen_main_ragged_rows. Qed.
+Print Assumptions cli_ragged_rows_exit.
+
+(* the hypothesis is satisfiable: digits as tokens; lines of 2 and 1 tokens under every delimiter that is
+   not one of the characters of the file *)
+Example cli_ragged_rows_exit_nonvacuous :
+  let parse := fun s : string => if all_digits s && negb (is_empty s) then Some s else None in
+  let content := "1" ++ String nl ("2" ++ String nl "") in
+  exists d r0 rows i r,
+      parse_rows string parse d (lines_fixed ("1,2" ++ String nl ("3" ++ String nl ""))) = r0 :: rows /\
+      nth_error (r0 :: rows) i = Some r /\ length r <> length r0.
+Proof.
+  exists (ascii_of_nat 44), ["1"; "2"], [["3"]], 1, ["3"].
+  split; [vm_compute; reflexivity|]. split; [reflexivity|discriminate].
+Qed.
 
 Theorem cli_main_cases : forall (V : Type) (parse : string -> option V) (print : V -> string)
          (lib : list (string * value) -> bool -> nat -> list (list V)
